@@ -3,7 +3,7 @@
   `IState` and the pure lexer `PState` produce the same tokens.
 -/
 import CedarGoProofs.Lemmas.C18Stream
-namespace CedarGo.Text
+namespace CedarGo.Text.Lx
 
 /-- total width of a decoded rune list -/
 def widths (xs : List (Rune × Nat)) : Nat := (xs.map (·.2)).sum
@@ -469,4 +469,4 @@ theorem incTokens_eq_rawTokens (doc : List UInt8) (fails : Bool) : incTokens doc
   rw [← h1']
   exact this
 
-end CedarGo.Text
+end CedarGo.Text.Lx
